@@ -69,6 +69,24 @@ class Gen:
                 ps.append(extra.pop())
         return ps
 
+    def branchy(self):
+        """a run c^k that branches: c^i d (several i, distinct d) and sometimes c^j itself - the node c^i has two or
+        more children, one of them c again, and the siblings' failure links climb to different depths; no 1-byte pattern,
+        so that every kind of search walks deep into the run"""
+        self.note("branchy")
+        c = self.rng.choice(b"ab")
+        ds = [d for d in b"abcde" if d != c]
+        self.rng.shuffle(ds)
+        ks = sorted(self.rng.sample(range(1, 6), self.rng.randint(2, 3)))
+        ps = [bytes([c]) * k + bytes([ds[i % len(ds)]]) + (self.word(b"abc", 0, 2) if self.rng.random() < 0.3 else b"")
+              for i, k in enumerate(ks)]
+        if self.rng.random() < 0.3:
+            ps.append(bytes([c]) * self.rng.randint(2, 6))
+        if self.rng.random() < 0.3:
+            ps.append(bytes([ds[0]]) + bytes([c]) * self.rng.randint(1, 3) + bytes([ds[1]]))
+        self.rng.shuffle(ps)
+        return ps
+
     def akb(self):
         self.note("akb")
         k = self.rng.randint(2, 6)
@@ -146,8 +164,10 @@ class Gen:
 
     def pats(self, empty=True, kinds=None):
         kinds = kinds or ["tiny", "tiny3", "nest", "akb", "suffix_chain", "failchain", "failchain", "periodic", "periodic",
-                          "fanout_small", "casey", "random_bytes", "dups3"]
+                          "fanout_small", "casey", "random_bytes", "dups3", "branchy", "branchy"]
         k = self.rng.choice(kinds)
+        if k == "branchy":
+            return self.branchy()
         if k == "dups3":
             ps = self.dups3()
             return ps if empty else ([p for p in ps if p] or [b"ab"])
@@ -193,6 +213,14 @@ class Gen:
         alpha, foreign = self.alphabet(pats, fold)
         r = self.rng.random()
         n = self.rng.randint(0, maxlen)
+        if r < 0.3 and pats and len(set(p[:1] for p in pats if p)) <= 2 and max(len(p) for p in pats) >= 3 and self.rng.random() < 0.5:
+            # a run of the first byte of a pattern that is LONGER than the pattern's own run, then the rest of the pattern
+            p = self.rng.choice([q for q in pats if q])
+            run = 0
+            while run < len(p) and p[run] == p[0]:
+                run += 1
+            out = bytes([foreign]) * self.rng.randint(0, 1) + p[:1] * (run + self.rng.randint(1, 3)) + p[run:] + bytes([foreign]) * self.rng.randint(0, 1)
+            return out
         if r < 0.15 and pats:
             # a long pattern cut just before its end, then a foreign byte, then whole patterns (exercises long failure chains)
             p = max(pats, key=len)
